@@ -6,6 +6,9 @@ only the renderer reads (how value types are spelled, the order in which options
 how task functions are written, the emitter arrangement)."""
 import json, os, random, re
 
+REPO = os.environ.get("VERIF_REPO", "/repo")
+HARNESS_OVERRIDE = None     # set by gen_checks when the harness module is a scratch copy
+
 KINDS = ["struct", "ptr", "int", "slice", "map", "generic", "ext"]
 SENTINEL = "h.Sentinel"
 
@@ -346,10 +349,10 @@ def write_module(root, packages, fancy=True):
     os.makedirs(root, exist_ok=True)
     with open(os.path.join(root, "go.mod"), "w") as f:
         f.write("module vgen\n\ngo 1.19\n\nrequire (\n\tgo.uber.org/cff v0.1.0\n\tgo.uber.org/multierr v1.11.0\n"
-                "\tverif/harness v0.0.0\n)\n\nreplace go.uber.org/cff => /repo\n\nreplace verif/harness => %s\n"
-                % os.path.join(os.path.dirname(os.path.dirname(os.path.abspath(__file__))), "harness"))
+                "\tverif/harness v0.0.0\n)\n\nreplace go.uber.org/cff => %s\n\nreplace verif/harness => %s\n"
+                % (REPO, HARNESS_OVERRIDE or os.path.join(os.path.dirname(os.path.dirname(os.path.abspath(__file__))), "harness")))
     import shutil
-    shutil.copy("/repo/internal/tests/go.sum", os.path.join(root, "go.sum"))
+    shutil.copy(REPO + "/internal/tests/go.sum", os.path.join(root, "go.sum"))
     os.makedirs(os.path.join(root, "ext"), exist_ok=True)
     with open(os.path.join(root, "ext", "ext.go"), "w") as f:
         f.write("// Package ext holds value types declared outside the package that uses cff.\npackage ext\n\n" +
